@@ -16,8 +16,10 @@ import (
 
 	"github.com/atlassian/gostatsd"
 	"github.com/atlassian/gostatsd/pkg/statsd"
+	"github.com/atlassian/gostatsd/verifhooks"
 
 	"verifharness/hlib"
+	"verifharness/mmgen"
 )
 
 type point struct {
@@ -34,6 +36,7 @@ type input struct {
 	Points   []point  `json:"points"`
 	Batches  []int    `json:"batches"` // sizes of the maps handed to ReceiveMap (rest in a last one)
 	Exact    bool     `json:"exact"`
+	Lexed    bool     `json:"lexed"` // datapoints travel as lines through the real lexer and its metric pool
 	Class    string   `json:"class"`
 }
 
@@ -202,6 +205,9 @@ func genCase(r *hlib.Rand, i int) input {
 		sz = "n<=6"
 	}
 	in.Class = reg + "/" + shape + "/" + sz
+	if in.Lexed = r.Chance(1, 3); in.Lexed {
+		in.Class += "/lexed"
+	}
 	return in
 }
 
@@ -247,26 +253,51 @@ func runOne(em *hlib.Emitter, in input) {
 			agg.Flush(time.Duration(in.Interval))
 			agg.Reset()
 		}
-		mm := gostatsd.NewMetricMap(false)
+		// batches of datapoints: the target series plus noise - another series with the same tags, one
+		// with the same name and other tags, a counter, and series with unrelated tag lists (other
+		// bucket lists, plain tags, longer and shorter lists) that arrive AFTER the target's first points
+		var batch []mmgen.Dp
+		ll := verifhooks.NewLineLexer(lexEstimatedTags)
+		send := func() {
+			if in.Lexed {
+				ms, _, err := lexBatch(ll, batch)
+				if err != nil {
+					panic(err)
+				}
+				agg.ReceiveMap(receiveBatch(ms))
+			} else {
+				agg.ReceiveMap(mmgen.Build(batch))
+			}
+			batch = nil
+		}
+		one := math.Float64bits(1)
+		dp := func(n string, ty gostatsd.MetricType, v, r uint64, ts int64, tags ...string) mmgen.Dp {
+			return mmgen.Dp{Name: n, Type: int(ty), Value: v, Rate: r, Tags: append([]string{}, tags...), TS: ts}
+		}
 		bi, inBatch := 0, 0
 		for j, p := range in.Points {
-			mm.Receive(&gostatsd.Metric{Name: name, Type: gostatsd.TIMER, Value: math.Float64frombits(p.V), Rate: math.Float64frombits(p.R),
-				Tags: append(gostatsd.Tags{}, in.Tags...), Timestamp: gostatsd.Nanotime(10 + j)})
-			// noise: another series with the same tags, one with the same name and other tags, a counter
+			batch = append(batch, dp(name, gostatsd.TIMER, p.V, p.R, int64(10+j), in.Tags...))
 			if j%3 == 0 {
-				mm.Receive(&gostatsd.Metric{Name: "other", Type: gostatsd.TIMER, Value: 1e6, Rate: 1, Tags: append(gostatsd.Tags{}, in.Tags...), Timestamp: 5})
-				mm.Receive(&gostatsd.Metric{Name: name, Type: gostatsd.TIMER, Value: -1e6, Rate: 0.5, Tags: append(gostatsd.Tags{"noise:1"}, in.Tags...), Timestamp: 5})
-				mm.Receive(&gostatsd.Metric{Name: name, Type: gostatsd.COUNTER, Value: 3, Rate: 1, Tags: append(gostatsd.Tags{}, in.Tags...), Timestamp: 5})
+				batch = append(batch, dp("other", gostatsd.TIMER, math.Float64bits(1e6), one, 5, in.Tags...),
+					dp(name, gostatsd.TIMER, math.Float64bits(-1e6), math.Float64bits(0.5), 5, append([]string{"noise:1"}, in.Tags...)...),
+					dp(name, gostatsd.COUNTER, math.Float64bits(3), one, 5, in.Tags...),
+					dp("unrelated", gostatsd.TIMER, math.Float64bits(250), one, 5, unrelatedTags[(j/3)%len(unrelatedTags)]...))
 			}
 			inBatch++
 			if bi < len(in.Batches) && inBatch == in.Batches[bi] {
-				agg.ReceiveMap(mm)
-				mm = gostatsd.NewMetricMap(false)
+				send()
 				bi++
 				inBatch = 0
 			}
 		}
-		agg.ReceiveMap(mm)
+		send()
+		if in.Lexed { // later, unrelated traffic between the arrival and the flush
+			for _, tg := range unrelatedTags {
+				batch = append(batch, dp("unrelated", gostatsd.TIMER, math.Float64bits(250), one, 6, tg...),
+					dp("unrelated.g", gostatsd.GAUGE, math.Float64bits(1), one, 6, tg...))
+			}
+			send()
+		}
 		agg.Flush(time.Duration(in.Interval))
 		key := gostatsd.FormatTagsKey("", append(gostatsd.Tags{}, in.Tags...))
 		agg.Process(func(m *gostatsd.MetricMap) {
@@ -296,7 +327,14 @@ func runOne(em *hlib.Emitter, in input) {
 	// oracle table for the items of the first histogram tag (in the flushed timer's tag order)
 	var table []string
 	seen := map[string]bool{}
-	for _, tg := range t.Tags {
+	// the tags the series was sent with, in the order Receive stores them (SortedString sorts in
+	// place); the model runs on THESE, and the flushed timer must still carry them
+	expTags := append([]string{}, in.Tags...)
+	sort.Strings(expTags)
+	if strings.Join(expTags, "\x00") != strings.Join([]string(t.Tags), "\x00") {
+		c.Monitors = append(c.Monitors, fmt.Sprintf("the flushed timer carries tags %q, it was sent with %q", []string(t.Tags), expTags))
+	}
+	for _, tg := range expTags {
 		if strings.HasPrefix(tg, "gsd_histogram:") {
 			for _, it := range strings.Split(tg[len("gsd_histogram:"):], "_") {
 				if seen[it] {
@@ -350,7 +388,7 @@ func runOne(em *hlib.Emitter, in input) {
 	obsTerm := hlib.App("Obs", hlib.Z(int64(t.Count)), hlib.F64(t.SampledCount), hlib.F64(t.PerSecond), hlib.F64(t.Mean), hlib.F64(t.Median),
 		hlib.F64(t.Min), hlib.F64(t.Max), hlib.F64(t.StdDev), hlib.F64(t.Sum), hlib.F64(t.SumSquares), hlib.List(vals), hlib.List(pl), histTerm)
 	c.Coq = "(Single " + hlib.App("Case", hlib.List(zs(in.Pcts)), maskTerm(in.Mask), hlib.ZU(uint64(in.Limit)), hlib.Z(in.Interval),
-		hlib.StrList([]string(t.Tags)), hlib.List(table), hlib.List(pts), hlib.Bool(in.Exact), obsTerm) + ")"
+		hlib.StrList(expTags), hlib.List(table), hlib.List(pts), hlib.Bool(in.Exact), obsTerm) + ")"
 	c.Obs = map[string]interface{}{"count": t.Count, "sampled": jf(t.SampledCount), "per_second": jf(t.PerSecond), "mean": jf(t.Mean), "median": jf(t.Median),
 		"min": jf(t.Min), "max": jf(t.Max), "stddev": jf(t.StdDev), "sum": jf(t.Sum), "sum_squares": jf(t.SumSquares), "percentiles": pobs, "histogram": histObs,
 		"histogram_nil": t.Histogram == nil, "tags": t.Tags}
@@ -377,6 +415,9 @@ func jf(f float64) interface{} {
 	}
 	return f
 }
+
+// tag lists of unrelated series: other bucket lists, plain tags, longer and shorter lists
+var unrelatedTags = [][]string{{"gsd_histogram:100_200_300"}, {"env:prod", "region:us"}, {}, {"a:1", "b:2", "c:3", "gsd_histogram:7"}, {"z:9"}}
 
 func zs(xs []int) []string {
 	out := make([]string, len(xs))
